@@ -786,7 +786,7 @@ def coq_lcase(c, o, fixed_pos=True):
         em.block(c["body"]), inj, cls, ret, cites, calls, store)
 
 
-def run_lang(cases, timeout=600):
+def run_lang(cases, timeout=150):
     payload = [{k: c[k] for k in ("id", "text", "rule", "inject", "tree")} for c in cases]
     for p, c in zip(payload, cases):
         if c.get("twice"):
@@ -800,7 +800,7 @@ def run_lang(cases, timeout=600):
             return out
         res = []
         for c in shard:
-            st1, out1, err1 = run_harness_child("lang", [c], timeout=60)
+            st1, out1, err1 = run_harness_child("lang", [c], timeout=25)
             if st1 == "ok":
                 res += out1
             else:
